@@ -29,3 +29,39 @@ Example C13_code_example :
   = Ret (state_of 3 [2;0;2;1;0] [[1;4];[3];[0;2]]).
 Proof. vm_compute. reflexivity. Qed.
 Print Assumptions C13_code_example.
+
+(* ---- REPOPULATION AS TRANSLATED in skeleton mode (Gen/G_cm_repopulate.v; facts: Proofs/GenEquivPH.v): when no cluster has fewer
+   than two points the state given is returned ITSELF and nothing was copied, moved or assigned (the log holds only the scan) ---- *)
+From Ticc Require Import Gen.PySkel Gen.G_cm_repopulate Proofs.GenEquivPH.
+Section SkelPH13.
+  Local Open Scope string_scope.
+  Variable V : Type.
+  Variable vnone : V.
+  Variable vint : Z -> V.
+  Variable as_int : V -> option Z.
+  Variable veq : V -> V -> bool.
+  Variable getattr : V -> string -> V.
+  Variable truthy : V -> bool.
+  Variable is_none : V -> bool.
+  Variables vtrue vfalse : V.
+  Variable as_list : V -> list V.
+  Variable vglobal : string -> V.
+  Variable oracle : list (event V) -> string -> list V -> res V.
+  Let scan_events := GenEquivPH.scan_events V as_int getattr.
+  Let sized := GenEquivPH.sized V as_int getattr.
+  Theorem C13_code_repopulate_noop (model r : V) (log log' : list (event V)) :
+    g_repopulate_empty_clusters V as_int getattr as_list oracle model log = (Ret r, log') ->
+    exists s en lenv n,
+      oracle log "set" [] = Ret s /\
+      oracle (log ++ [Ev "set" []])%list "enumerate" [getattr model "clusters"] = Ret en /\
+      Forall sized (as_list en) /\
+      oracle (log ++ [Ev "set" []; Ev "enumerate" [getattr model "clusters"]] ++ scan_events s (as_list en))%list
+             "len" [s] = Ret lenv /\
+      as_int lenv = Some n /\
+      (n = 0%Z ->
+       r = model /\
+       log' = (log ++ [Ev "set" []; Ev "enumerate" [getattr model "clusters"]]
+                   ++ scan_events s (as_list en) ++ [Ev "len" [s]])%list).
+  Proof. intros; eapply repopulate_noop; eassumption. Qed.
+End SkelPH13.
+Print Assumptions C13_code_repopulate_noop.
